@@ -320,6 +320,23 @@ theorem eval_order_independent {objs objs' : List Obj} (hp : objs.Perm objs')
     WorldDriver.runEvalAll objs = WorldDriver.runEvalAll objs' :=
   PermEval.eval_order_independent hp hk hok
 
+/-- **companion for an engine filled through `InsertObject`** (`eval_order_independent` is about
+`runEvalAll`, whose engine is built by `Engine.build`, sort included; the `eval` command of the
+tool inserts the objects one by one). For the admin policies — the only objects whose order the
+result could follow, through the slice `sortedAdminNetpols` — : two permutations of a list of admin
+policies, inserted one by one into the same state and stopping at the first refusal
+(`EState.insertAll`), are both refused or both accepted, and when accepted the two states are equal
+up to the order of the name map `adminNetpolsMap` (same sorted slice, same other objects, same
+cleared cache). No hypothesis: `insertAdminNetworkPolicy` refuses a priority held already, so the
+slice never holds a tie that the document order would resolve. -/
+theorem insert_path_anps_order_independent (s : EState) {l₁ l₂ : List ANP} (hp : l₁.Perm l₂) :
+    (∃ err₁ err₂, (s.insertAll (l₁.map .anp)).1 = .err err₁ ∧
+      (s.insertAll (l₂.map .anp)).1 = .err err₂) ∨
+    (∃ s₁ s₂, s.insertAll (l₁.map .anp) = (.ok, s₁) ∧ s.insertAll (l₂.map .anp) = (.ok, s₂) ∧
+      s₁.eng.anps = s₂.eng.anps ∧ s₁.eng.anpNames.Perm s₂.eng.anpNames ∧
+      s₂ = { s₁ with eng := { s₁.eng with anpNames := s₂.eng.anpNames } }) :=
+  EState.insertAll_anps_perm s hp
+
 /-- the failing case, as for `list` -/
 theorem eval_error_order_independent {objs objs' : List Obj} (hp : objs.Perm objs') {err : Err}
     (h : Netpol.Engine.build objs = .error err)
